@@ -187,7 +187,28 @@ func runC14(cx *Ctx, r *Report) {
 					continue
 				}
 				nst++
-				base, _ := fa.X.(*ssa.Alloc)
+				// (the record may be a part of a larger literal under construction: an embedded
+				// field of a draft struct)
+				root := fa.X
+				for d := 0; d < 4; d++ {
+					in, ok := root.(*ssa.FieldAddr)
+					if !ok {
+						break
+					}
+					whole := false
+					if in.Referrers() != nil {
+						for _, ref := range *in.Referrers() {
+							if s2, ok := ref.(*ssa.Store); ok && s2.Addr == ssa.Value(in) {
+								whole = true
+							}
+						}
+					}
+					if whole {
+						break
+					}
+					root = in.X
+				}
+				base, _ := root.(*ssa.Alloc)
 				fresh := base != nil
 				if base != nil {
 					for _, ref := range *base.Referrers() {
